@@ -5,7 +5,7 @@ from rules.rfs import *
 LEVEL = "other"
 MIN_OBLIGATIONS = 16
 THOROUGH_CONFIGS = ("headeronly",)
-TECHNIQUE = "byte-layout extraction from the AST of the gzip writer (ordered constant writes, linear slice arithmetic, endian conversion, CRC-32 parameters and update idiom) compared with the RFC 1952 / RFC 1950 / qCompress layout table; ordering by dominance; hand-over rule (the sink's own QFile is closed or flushed before compressFile reads the renamed file); who-may-delete allow-list; CRC-32 decided semantically: table entries computed from the source, per-byte update evaluated on 256 bytes x 33 basis registers after a GF(2)-affinity check"
+TECHNIQUE = "byte-layout extraction from the AST of the gzip writer (ordered constant writes, linear slice arithmetic, endian conversion, CRC-32 parameters and update idiom) compared with the RFC 1952 / RFC 1950 / qCompress layout table; ordering by dominance; hand-over rule (the sink's own QFile is closed or flushed before compressFile reads the renamed file); who-may-delete allow-list; CRC-32 decided semantically: table entries computed from the source, per-byte update evaluated on 256 bytes x 33 basis registers after a GF(2)-affinity check; the compression path shares no scratch state between sinks (static-variable effect rule over the call-graph closure of compressFile: assignments and escapes to non-const pointer / reference parameters)"
 LEVEL_TEXT = ("The gzip writer is a fixed byte layout, so its correctness for all contents is the agreement of the layout extracted from the code with the format's table: 10-byte header "
               "1f 8b 08 00 + MTIME(4) + XFL + OS, payload = qCompress output minus its 4-byte length prefix, 2-byte zlib header and 4-byte Adler-32, trailer CRC-32 then ISIZE (little endian, "
               "4 bytes each), CRC-32 with the reflected polynomial EDB88320, init/final FFFFFFFF and the standard table update; the file is rewound between the CRC pass and the read; the original "
